@@ -2804,7 +2804,10 @@ class Env(cabc.MutableMapping):
                 self._set_item(k, v, thread_local=True)
         # kwargs could also have been sent in
         for k, v in kwargs.items():
-            old[k] = self._capture_for_swap(k, local)
+            # a key given both ways keeps its pre-scope state, not the
+            # value just swapped in from ``other``
+            if k not in old:
+                old[k] = self._capture_for_swap(k, local)
             self._set_item(k, v, thread_local=True)
 
         if overlay is not None:
